@@ -3,6 +3,7 @@ from checks.common import Ctx
 from sa.report import Check, RuleResult
 from sa.rules import cpp_rules as C
 from sa.rules import window_rules as WN
+from sa.rules import cpprange as CR
 
 
 def main(tier):
@@ -27,4 +28,5 @@ def main(tier):
     chk.run("R-TWIN", C.twin, cx.cpp, floor=40, control=lambda: cx.cpp_control)
     chk.run("R-MIRROR", C.mirror, cx.cpp, floor=8)
     chk.run("R-WINDOW", WN.window, cx.cpp, floor=5)
+    chk.run("R-CPPRANGE", CR.cpprange, cx.cpp, floor=2000)
     return chk.finish()
